@@ -15,6 +15,8 @@ import (
 	"runtime/debug"
 	"sort"
 	"strings"
+	"sync"
+	"sync/atomic"
 	"testing"
 
 	cj "github.com/refraction-networking/conjure/pkg/station/lib"
@@ -225,4 +227,140 @@ func TestVerif_C19_connstats(t *testing.T) {
 		c.Ops = append(c.Ops, c19COp{Kind: "print"}, c19COp{Kind: "print"})
 		c19CCheck(rt, rec, x, c)
 	})
+}
+
+// TestVerif_C19_connrace (built with -race): the connection stats module wired as in main.go, its
+// PrintAndReset looping (the verbose statistics tick) while 4 goroutines count connection-state
+// transitions and connecting-transport events for varying (ASN, country code, family), as the
+// connection handlers and the DTLS callbacks do. Oracle: no recovered panic; a race report or a
+// runtime fatal error fails the binary (vcheck reports the crash).
+func TestVerif_C19_connrace(t *testing.T) {
+	rec := vh.NewRec("C19", "connrace", "race-detector build: for the shipped and 4 small configurations wired as main.go does, one goroutine loops PrintAndReset (and every 16th time Reset) of the connection stats module while 4 goroutines call all 28 transition / connecting-event counters over (ASN, country code incl. empty, family) combinations; work bounded by operation counts; oracle: no panic, no race report; non-trivial = not the shipped configuration; distinct by configuration")
+	defer rec.Flush()
+	rec.Require("accepted", "ticks-ran-during-activity")
+	dir := t.TempDir()
+	x := &c19CCtx{confPath: filepath.Join(dir, "app_config.toml")}
+	os.Setenv("CJ_STATION_CONFIG", x.confPath)
+	sp := filepath.Join(dir, "phantom_subnets.toml")
+	if err := os.WriteFile(sp, []byte(c19CSubnets), 0o644); err != nil {
+		t.Fatalf("harness problem: %v", err)
+	}
+	os.Setenv("PHANTOM_SUBNET_LOCATION", sp)
+	for ci, cfg := range c19CConfigs {
+		if !vh.Mine(ci) {
+			continue
+		}
+		c := c19CCase{Config: cfg}
+		text := cfg
+		if text == "shipped" {
+			repo := os.Getenv("VERIF_REPO")
+			if repo == "" {
+				repo = "/repo"
+			}
+			b, err := os.ReadFile(filepath.Join(repo, "cmd", "application", "app_config.toml"))
+			if err != nil {
+				t.Fatalf("harness problem: %v", err)
+			}
+			text = string(b)
+		}
+		if err := os.WriteFile(x.confPath, []byte(text), 0o644); err != nil {
+			t.Fatalf("harness problem: %v", err)
+		}
+		conf, err := cj.ParseConfig()
+		if err != nil || conf.RegConfig == nil {
+			rec.Case(cfg != "shipped", vh.Digest(c), c, "rejected")
+			continue
+		}
+		connManager := newConnManager(nil)
+		conf.RegConfig.ConnectingStats = connManager
+		if rm := cj.NewRegistrationManager(conf.RegConfig); rm == nil {
+			rec.Case(cfg != "shipped", vh.Digest(c), c, "rejected")
+			continue
+		}
+		logger := log.New(c19CDiscard{}, "[STATS] ", golog.Ldate|golog.Lmicroseconds)
+		logger.SetLevel(log.TraceLevel)
+		methods := c19CMethods(connManager)
+		cls := []string{"accepted"}
+		if c19CNonAtomicConnectingReset() {
+			// resetConnecting() clears the seven connecting-transport totals with a plain struct
+			// assignment while the DTLS callbacks add to them atomically: a data race on integer
+			// counters that can lose an increment but cannot panic, i.e. not a C19 violation. The race
+			// detector cannot tell it from a fatal one, so those 8 events are left out of the
+			// concurrent mix for as long as the tree has that assignment (recorded as a class).
+			methods = methods[:20]
+			cls = append(cls, "connecting-events-excluded:non-atomic-reset")
+		} else {
+			cls = append(cls, "connecting-events-included")
+		}
+		var stop int32
+		var ticks int64
+		var mu sync.Mutex
+		var fails []string
+		guard := func(who string, f func()) {
+			if v, st := c19CRecover(f); v != "" {
+				mu.Lock()
+				fails = append(fails, fmt.Sprintf("%s: %s [%s]", who, v, c19CFrame(st)))
+				mu.Unlock()
+			}
+		}
+		var workers, printer sync.WaitGroup
+		printer.Add(1)
+		go func() {
+			defer printer.Done()
+			guard("stats-tick", func() {
+				for atomic.LoadInt32(&stop) == 0 {
+					connManager.PrintAndReset(logger)
+					if n := atomic.AddInt64(&ticks, 1); n%16 == 0 {
+						connManager.Reset()
+					}
+				}
+			})
+		}()
+		n := vh.Pick(3000, 40000)
+		ccs := []string{"", "US", "unk", "IR", "ZZ"}
+		asns := []uint{0, 1, 64512, 4294967295}
+		for g := 0; g < 4; g++ {
+			g := g
+			workers.Add(1)
+			go func() {
+				defer workers.Done()
+				guard("counters", func() {
+					for i := 0; i < n; i++ {
+						k := i*4 + g
+						methods[k%len(methods)](asns[(k/3)%len(asns)], ccs[(k/5)%len(ccs)], k%2 == 0)
+					}
+				})
+			}()
+		}
+		workers.Wait()
+		atomic.StoreInt32(&stop, 1)
+		printer.Wait()
+		if atomic.LoadInt64(&ticks) > 1 {
+			cls = append(cls, "ticks-ran-during-activity")
+		}
+		rec.Case(cfg != "shipped", vh.Digest(c), c, cls...)
+		sort.Strings(fails)
+		for _, f := range fails {
+			rec.Violation(t, "panic:concurrent:connstats", c, "connection stats printed concurrently with counting: %s", f)
+		}
+	}
+	rec.SetExhaustive(true)
+}
+
+type c19CDiscard struct{}
+
+func (c19CDiscard) Write(p []byte) (int, error) { return len(p), nil }
+
+// c19CNonAtomicConnectingReset reports whether the tree under test still clears the connecting
+// totals with a plain struct assignment (see TestVerif_C19_connrace).
+func c19CNonAtomicConnectingReset() bool {
+	repo := os.Getenv("VERIF_REPO")
+	if repo == "" {
+		repo = "/repo"
+	}
+	b, err := os.ReadFile(filepath.Join(repo, "cmd", "application", "connectingStats.go"))
+	if err != nil {
+		return true
+	}
+	return strings.Contains(string(b), "c.connectingCounts = connectingCounts{}")
 }
